@@ -20,6 +20,9 @@
                         3 Resolve (behaves as Wait; the caller gets ref.Release instead of the reference), 4 ResolveWithReleased itself (behaves as 1)
              11 c       cancel consumer c's context
              12 c       the goroutine spawned by consumer c's WaitWithReleased callback: removeRef section, then released()
+             15 c       the oldest parked watcher goroutine of Access consumer c takes its step (hook site 5: inside Access, the goroutine
+                        that cancels the callback's context when the value changes, parked between its wake-up and its cbCancel()).
+                        Against a /repo without that hook the harness reports the step right after the event that woke the watcher
    Observation after every event:
      rets  ng gcode*  target targetErr  nref (last v e)*  nrel (id target stale)*  nasync  nrelact (code ref)*  ncons (code v e held fired firepc)*
      gcode 1 first gate, 2 blocked, 3 inside the resolver, 4 before the store section, 5 done
@@ -29,7 +32,9 @@
      relact code 1 parked, 5 done; consumer code 2 blocked, 3 returned (v, e, still holding its reference); fired = released-callback
      invocations; firepc 0 none, 1 its goroutine is parked, 5 done.
      Access consumers: code 6 inside the callback (v = the value it was called with, held = 1 iff its context is cancelled now),
-     2 waiting / inside its final Release, 3 returned (v = the returned error code: 0 nil, 1 Canceled, else an error; e = 0). *)
+     2 waiting / inside its final Release, 3 returned (v = the returned error code: 0 nil, 1 Canceled, else an error);
+     e = the number of its watcher goroutines that are parked (woken, before cbCancel()), firepc = 1 iff the watcher of the
+     running invocation is among them. *)
 From Util Require Import Common.Base Common.ListLemmas RefCount.Model.
 Open Scope N_scope.
 
@@ -65,13 +70,14 @@ Definition lastcode (x : ref) : list N :=
 Definition relcode (x : relcall) : list N := [nn (rc_id x); nn (rc_target x); nn (rc_stale x)].
 Definition parked (x : async) : bool := match as_pc x with AParked => true | ARan => false end.
 Definition racode (x : relact) : list N := [match ra_pc x with RGate => 1 | RDone => 5 end; nn (ra_ref x)].
+Definition nwatch (x : cons) : N := nn (ac_wstale x + (if ac_wpark x then 1 else 0)).
 Definition ccode (x : cons) : list N :=
   (match cpcv x with
    | CRet v e h => [3; nn v; nn e; nb h]
-   | CAccCb v => [6; nn v; 0; nb (ac_cbcanc x || ccanc x)]
-   | CAccRet code => [3; nn code; 0; 0]
-   | _ => [2; 0; 0; 0]
-   end) ++ [nn (ww_fired x); match ww_firepc x with None => 0 | Some RGate => 1 | Some RDone => 5 end].
+   | CAccCb v => [6; nn v; nwatch x; nb (ac_cbcanc x || ccanc x)]
+   | CAccRet code => [3; nn code; nwatch x; 0]
+   | _ => [2; 0; nwatch x; 0]
+   end) ++ [nn (ww_fired x); match ww_firepc x with None => (if ac_wpark x then 1 else 0) | Some RGate => 1 | Some RDone => 5 end].
 
 Definition obs_of (rets : list N) (s : st) (from : nat) : list N :=
   rets ++ [nn (length (gs s))] ++ map gcode (gs s) ++ [nn (target s); nn (terr s)]
@@ -160,6 +166,14 @@ Definition hstep (h : hst) (e : list N) : option (hst * list N) :=
   | [12; c] =>
     match nth_error (conss s) (n2n c) with
     | Some x => match ww_firepc x with Some RGate => fin (fire_section s (n2n c)) [] | _ => None end
+    | None => None
+    end
+  | [15; c] =>
+    match nth_error (conss s) (n2n c) with
+    | Some x => match ck x with
+                | CKAccess => if Nat.ltb 0 (ac_wstale x) || ac_wpark x then fin (watch_step s (n2n c)) [] else None
+                | _ => None
+                end
     | None => None
     end
   | _ => None
@@ -437,7 +451,7 @@ Definition mon1 (m : mst) (e : list N) (p : pobs) : mst * list (nat * nat) :=
   let rows := combine (seq 0 ncons) (combine (zip5 acb0 acanc0 ainv0 ccanc0 adec0) (combine (combine ckind' cref') (combine ccanc' (po_cons p)))) in
   (* per Access consumer: (in callback now, cancelled now, invalidated, decision, failing clauses) *)
   let judge := fun row =>
-    let '(i, ((acb, acanc, ainv, ccb, adec), ((k, r), (ccn, (code, v, _, h, _, _))))) := row in
+    let '(i, ((acb, acanc, ainv, ccb, adec), ((k, r), (ccn, (code, v, _, h, _, fp))))) := row in
     if negb (N.eqb k 2) then (false, false, false, None, [])
     else
       let cbnow := N.eqb code 6 in
@@ -452,7 +466,8 @@ Definition mon1 (m : mst) (e : list N) (p : pobs) : mst * list (nat * nat) :=
       let adec' := if decnow then Some (expected, fromcb) else adec in
       let decided' := match adec' with Some _ => true | None => false end in
       let c4 := fails 10 4 (negb started || match cur' with Some (g, e0) => N.eqb e0 0 && N.eqb v (vofe g) | None => false end) in
-      let c5 := fails 10 5 (negb (cbnow && inv') || nz h) in
+      (* "promptly": once the watcher goroutine of the invocation has run (it is not parked before its cbCancel()) *)
+      let c5 := fails 10 5 (negb (cbnow && inv' && negb (N.eqb fp 1)) || nz h) in
       let c6 := fails 10 6 (negb (decnow && mine && negb ccb) || negb ainv || nz cur_err) in
       let c6r := fails 10 6 (match adec' with Some (x, true) => negb (N.eqb code 3) || N.eqb v x | _ => true end) in
       let c6q := fails 10 6 (negb (quiet && negb decided' && negb ccn && match cur' with Some (_, e0) => N.eqb e0 0 | None => false end) || cbnow) in
